@@ -34,6 +34,15 @@ def A():
     return armodels
 
 
+def _fsum(it):
+    """math.fsum that returns inf / nan instead of raising on overflow"""
+    vals = list(it)
+    try:
+        return math.fsum(vals)
+    except (OverflowError, ValueError):
+        return float(np.sum(np.asarray(vals, dtype=float)))
+
+
 def ref_sim(phi, e, mean, ini):
     p = len(phi)
     prev = [ini - mean] * p
@@ -43,9 +52,9 @@ def ref_sim(phi, e, mean, ini):
     for t in range(len(e)):
         v = 0.0 if math.isnan(e[t]) else e[t]
         terms = [phi[k] * prev[k] for k in range(p)]
-        c = math.fsum(terms + [v])
-        mag = math.fsum(abs(x) for x in terms) + abs(v)
-        err = math.fsum(abs(phi[k]) * perr[k] for k in range(p)) + (p + 3) * EPS * mag
+        c = _fsum(terms + [v])
+        mag = _fsum(abs(x) for x in terms) + abs(v)
+        err = _fsum(abs(phi[k]) * perr[k] for k in range(p)) + (p + 3) * EPS * mag
         prev = [c] + prev[:-1]
         perr = [err] + perr[:-1]
         y[t] = c + mean
@@ -61,9 +70,9 @@ def ref_res(phi, y, mean, ini):
     bound = np.empty(len(y))
     for t in range(len(y)):
         terms = [phi[k] * prev[k] for k in range(p)]
-        pred = math.fsum(terms)
-        mag = math.fsum(abs(x) for x in terms)
-        perr_pred = math.fsum(abs(phi[k]) * perr[k] for k in range(p)) + \
+        pred = _fsum(terms)
+        mag = _fsum(abs(x) for x in terms)
+        perr_pred = _fsum(abs(phi[k]) * perr[k] for k in range(p)) + \
             (p + 3) * EPS * mag
         if math.isnan(y[t]):
             v = pred
@@ -151,16 +160,22 @@ def run_case(ctx, case):
     ctx.api("armodel_sim")
     params = phi if (p > 1 or case.get("scalar") is False) else float(phi[0])
     y = call(ar.armodel_sim, params, e.copy(), **kw)
-    yref, yb = ref_sim(phi.tolist(), e.tolist(), mean, ini_eff)
+    try:
+        yref, yb = ref_sim(phi.tolist(), e.tolist(), mean, ini_eff)
+    except (OverflowError, ValueError):
+        yref = yb = np.full(len(e), np.inf)
     ctx.check("sim.shape", y.shape == e.shape, "armodel_sim|shape", case,
               {"shape": list(y.shape)})
     if y.shape != e.shape:
         return
     ymax = float(np.max(np.abs(yref))) if n else 0.0
     tol = 64 * yb + 1e-300
-    stable = n == 0 or float(np.max(yb)) <= 1e-6 * max(ymax, 1e-300)
+    stable = n == 0 or (bool(np.all(np.isfinite(yref))) and bool(np.all(np.isfinite(yb)))
+                        and float(np.max(yb)) <= 1e-6 * max(ymax, 1e-300))
     if not stable:
+        # explosive coefficients (values overflow): executed, not judged
         ctx.extra["explosive-not-judged"] += 1
+        return
     bad = np.where(~(np.abs(y - yref) <= tol))[0]
     ctx.check("sim.recursion", len(bad) == 0 or not stable, "armodel_sim|recursion",
               case, lambda: {"t": int(bad[0]), "got": float(y[bad[0]]),
